@@ -44,7 +44,9 @@ impl Broker {
 
             for svc_cookie in obj.services() {
                 if !self.svc_uuids.contains_key(&svc_cookie) {
-                    bad.push(format!("object {uuid:?} lists unknown service {svc_cookie:?}"));
+                    bad.push(format!(
+                        "object {uuid:?} lists unknown service {svc_cookie:?}"
+                    ));
                 }
             }
         }
@@ -133,13 +135,17 @@ impl Broker {
 
             for cookie in conn.senders().chain(conn.receivers()) {
                 if !self.channels.contains_key(&cookie) {
-                    bad.push(format!("connection {id:?} lists missing channel {cookie:?}"));
+                    bad.push(format!(
+                        "connection {id:?} lists missing channel {cookie:?}"
+                    ));
                 }
             }
 
             for cookie in conn.bus_listeners() {
                 if !self.bus_listeners.contains_key(&cookie) {
-                    bad.push(format!("connection {id:?} lists missing listener {cookie:?}"));
+                    bad.push(format!(
+                        "connection {id:?} lists missing listener {cookie:?}"
+                    ));
                 }
             }
 
